@@ -19,17 +19,14 @@ Definition inp_ok (s : state) : Prop :=
   | Some j => live_in s.(wtaken) j = true -> s.(nsc) = Some j \/ s.(cwk) = WCall j
   | None => True
   end.
-Definition inv16 (s : state) : Prop :=
-  s.(poll_fn) = false \/
+Definition needs_ok (r : option (nat * jpc)) : bool := match r with None => true | Some (_, pc) => pc_pre pc end.
+Definition pend_ok (s : state) : Prop :=
   match s.(running) with
-  | None => inp_ok s
-  | Some (j', pc) =>
-      if pc_pre pc then inp_ok s
-      else match pc with
-           | JPendStore => match s.(inp_waker) with Some j => j = j' | None => True end
-           | _ => True
-           end
+  | Some (j', JPendStore) => match s.(inp_waker) with Some j => j = j' | None => True end
+  | _ => True
   end.
+Definition inv16 (s : state) : Prop :=
+  s.(poll_fn) = false \/ ((needs_ok s.(running) = true -> inp_ok s) /\ pend_ok s).
 
 Lemma live_in_cons j wt k : live_in (j :: wt) k = true -> live_in wt k = true /\ k <> j.
 Proof.
@@ -51,10 +48,51 @@ Section Drop.
   Lemma step_inv_drop s a s' : inv_shape s -> inv_drop s -> step F f s a = Some s' -> inv_drop s'.
   Proof.
     intros Hsh (D1 & D3 & D4) Hs. step_cases Hs.
-    all: unfold inv_drop, inv16, inp_ok, dropped, inv_shape in *; cbn in *.
+    all: unfold inv_drop, inv16, inp_ok, pend_ok, dropped, inv_shape in *; cbn in *.
     all: rewrite ?Hrecheck in *; cbn in *.
     all: split_and!; try done.
     all: try (by left); try (by right); try tauto.
-    Show.
-  Admitted.
+    all: try sat_solve.
+    all: try (destruct D3 as [D3|[D3 D3']]; [by left|right]).
+    all: try (split; [|done]).
+    all: try tauto.
+    all: try (destruct cst; try done; by right).
+    all: try (split; [done|destruct running as [[? []]|]; done]).
+    all: intros Hn; try specialize (D3 Hn); destruct inp_waker as [k|]; [|done]; intros Hl.
+    all: try (apply live_in_cons in Hl as [Hl Hne]); try specialize (D3 Hl); subst.
+    all: try (by left).
+    all: destruct D3 as [D3|D3]; subst; cbn; try (by left); try (by right); try discriminate D3.
+    all: try (injection D3 as <-; done).
+    all: injection D3 as ->; congruence.
+  Qed.
+
+  Lemma reach_inv_drop inputs ext tr s : run F f (init F inputs ext) tr = Some s -> inv_shape s /\ inv_drop s.
+  Proof.
+    revert tr s. apply run_invariant_all.
+    - split; [apply inv_shape_init|apply inv_drop_init].
+    - intros s a s' [H1 H2] Hs. split; [eapply step_inv_shape; eauto|eapply step_inv_drop; eauto].
+  Qed.
+
+  (* C16 (for the repaired Pending arm) *)
+  Theorem drop_shuts_down inputs ext tr s :
+    run F f (init F inputs ext) tr = Some s ->
+    dropped s = true -> terminal_silent F f s ->
+    s.(strong_held) = false /\ released s = true /\ s.(cst) = CGone.
+  Proof.
+    intros Hr Hd Hterm. destruct (reach_inv_drop _ _ _ _ Hr) as (Hsh & D1 & D3 & D4).
+    destruct (cons_disabled F f s (Hterm ACons eq_refl eq_refl)) as [Hcw Hcst].
+    assert (Hg : cst s = CGone) by (unfold dropped in Hd; destruct (cst s); done).
+    assert (Hlk : core_locked s = false) by (unfold core_locked; rewrite Hg; done).
+    destruct (prod_disabled F f s (Hterm AProd eq_refl eq_refl) Hlk) as [Hrun Hq].
+    pose proof (env_disabled F f s (Hterm AEnv eq_refl eq_refl)) as Hew.
+    pose proof (Hterm ADispose eq_refl eq_refl) as Hdis. cbn in Hdis.
+    destruct (chute s) eqn:Ech; [done|]. rewrite Hg in D4.
+    split_and!; [destruct D4; done| |done].
+    unfold released, ctx_referenced, core_gone, wk_tok, live_opt. rewrite Hq, Hrun, Hcw, Hew, Hg. cbn.
+    destruct (poll_fn s) eqn:Ep; [cbn|done].
+    destruct D3 as [D3|[D3 _]]; [congruence|]. rewrite Hrun in D3. specialize (D3 eq_refl). unfold inp_ok in D3.
+    destruct (inp_waker s) as [k|]; [cbn|done].
+    destruct (live_in (wtaken s) k) eqn:El; [|done].
+    destruct (D1 Hd) as [_ Hnsc]. destruct (D3 eq_refl) as [H|H]; congruence.
+  Qed.
 End Drop.
